@@ -54,6 +54,27 @@ func c18KeyClass(key []byte) (string, *rsa.PublicKey) {
 	return "notrsa", nil
 }
 
+// c18Kept: a value copy of a PublicKey together with a private snapshot of the fields at copy time
+type c18Kept struct {
+	val    user.PublicKey
+	id     string
+	exp    time.Time
+	key    []byte
+	sig    []byte
+	nilSig bool
+}
+
+func c18Der(k *rsa.PublicKey) []byte {
+	if k == nil {
+		return nil
+	}
+	b, err := x509.MarshalPKIXPublicKey(k)
+	if err != nil {
+		return []byte("unmarshalable")
+	}
+	return b
+}
+
 func c18Wire(at time.Time, p c18Pkt) []byte {
 	var b bytes.Buffer
 	if _, err := (pk.Tuple{pk.Long(at.UnixMilli()), pk.ByteArray(p.key), pk.ByteArray(p.sig)}).WriteTo(&b); err != nil {
@@ -129,6 +150,7 @@ func c18Hist(c *Ctx, svc *rsa.PublicKey, pkts []c18Pkt, steps []string) {
 	}
 
 	var val user.PublicKey
+	var kept []*c18Kept
 	var obs []string
 	withKey(svc, func() {
 		for _, st := range steps {
@@ -206,6 +228,17 @@ func c18Hist(c *Ctx, svc *rsa.PublicKey, pkts []c18Pkt, steps []string) {
 				}
 			case "vs": // VerifySignature directly on packet idx
 				obs = append(obs, "vs="+boolObs(func() bool { return user.VerifySignature(bytes.Clone(pkts[idx].key), bytes.Clone(pkts[idx].sig)) })+"#"+arg)
+			case "cp": // keep a COPY of the value (as chat/sign.Session does), with a private snapshot of what it held
+				cpy := val
+				kept = append(kept, &c18Kept{val: cpy, id: ident(&cpy), exp: cpy.ExpiresAt, key: c18Der(cpy.PubKey), sig: bytes.Clone(cpy.Signature), nilSig: cpy.Signature == nil})
+				obs = append(obs, "cp")
+			case "vc": // Verify on kept copy idx: identity of the fields it had WHEN TAKEN; "/changed" if they are no longer those
+				k := kept[idx]
+				item := "vc=" + boolObs(k.val.Verify) + "@" + k.id
+				if !k.val.ExpiresAt.Equal(k.exp) || !bytes.Equal(c18Der(k.val.PubKey), k.key) || !bytes.Equal(k.val.Signature, k.sig) {
+					item += "/changed-was:" + k.id + "-now:" + ident(&k.val)
+				}
+				obs = append(obs, item)
 			case "v":
 				id := ident(&val)
 				obs = append(obs, "v="+boolObs(val.Verify)+"@"+id)
@@ -271,6 +304,10 @@ func c18GenHist(c *Ctx, svcA, svcB, profA, profB hkey) {
 			c18Hist(c, svc.pub, ps, []string{"rf:0", "v", "sk:1", "v", "sk:0", "v", "sk:n", "v"})
 			c18Hist(c, svc.pub, ps, []string{"rf:0", "v", "v", "rf:3", "v", "rf:1", "v", "rf:2", "v", "rf:1", "v"})
 			c18Hist(c, svc.pub, ps, []string{"rf:2", "v", "sk:1", "ss:1", "v", "se:3", "v", "se:0", "v"})
+			// value copies: read, copy, read again into the original, inspect the copy
+			c18Hist(c, svc.pub, ps, []string{"rf:1", "cp", "vc:0", "rf:0", "vc:0", "v"})
+			c18Hist(c, svc.pub, ps, []string{"rf:0", "v", "cp", "rf:1", "vc:0", "v", "cp", "rf:2", "vc:0", "vc:1", "rf:0", "vc:1", "v"})
+			c18Hist(c, svc.pub, ps, []string{"rf:2", "cp", "rf:1", "cp", "rf:0", "cp", "rf:3", "vc:0", "vc:1", "vc:2", "v"})
 			// other entry points of the package between the verifies: the services key must stay what it was
 			c18Hist(c, svc.pub, ps, []string{"rf:0", "v", "kw:1", "rf:1", "v", "vs:1", "kw:0", "v"})
 			c18Hist(c, svc.pub, ps, []string{"kw:1", "pw", "pp", "rf:1", "v", "vs:1", "vs:0", "rf:0", "pw", "v"})
@@ -324,6 +361,23 @@ func c18GenHist(c *Ctx, svcA, svcB, profA, profB hkey) {
 				}
 			}
 			steps = append(steps, "v")
+			if i%2 == 0 { // sprinkle copies and checks of earlier copies
+				var with []string
+				nk := 0
+				for _, st := range steps {
+					with = append(with, st)
+					if strings.HasPrefix(st, "rf:") && c.R.Intn(2) == 0 {
+						with = append(with, "cp")
+						nk++
+					} else if nk > 0 && c.R.Intn(3) == 0 {
+						with = append(with, fmt.Sprintf("vc:%d", c.R.Intn(nk)))
+					}
+				}
+				for k := 0; k < nk; k++ {
+					with = append(with, fmt.Sprintf("vc:%d", k))
+				}
+				steps = with
+			}
 			c18Hist(c, svc.pub, ps, steps)
 		}
 	}
@@ -369,7 +423,58 @@ func (t c18Transport) RoundTrip(r *http.Request) (*http.Response, error) {
 // c18Handshake runs the real auth.Encrypt over a net.Pipe against a scripted client that encrypts `secret`
 // (any length the key can carry) and answers according to `mode`; the session-server call is answered by a
 // stub that records the serverId (the session hash the server derived).
+// c18PlayerName: a player name that is a function of the secret(s), so that a line does not depend on earlier lines
+// even if the server keeps per-name state
+func c18PlayerName(prefix string, secrets ...[]byte) string {
+	h := sha1.New()
+	for _, s := range secrets {
+		h.Write(s)
+		h.Write([]byte{0xff})
+	}
+	return prefix + hx(h.Sum(nil))[:10]
+}
+
 func c18Handshake(c *Ctx, kseed int64, kbits int, mode, httpMode string, secret []byte) {
+	args, obs := c18HandshakeRun(kseed, kbits, mode, httpMode, c18PlayerName("p", secret), secret)
+	c.Emit("auth.hs", args, obs)
+}
+
+// c18Handshake2: several handshakes through Encrypt in this process, some for the same player name; every one
+// the server accepts must have presented its OWN session hash to the session server
+func c18Handshake2(c *Ctx, kseed int64, kbits int, pattern string, secrets [][]byte) {
+	base := c18PlayerName("q", secrets...)
+	args := []string{fmt.Sprintf("kseed=%d", kseed), fmt.Sprintf("kbits=%d", kbits), "pattern=" + pattern, fmt.Sprintf("n=%d", len(secrets))}
+	var obs []string
+	for i, s := range secrets {
+		a, o := c18HandshakeRun(kseed, kbits, "ok", "ok", base+string(pattern[i]), s)
+		for _, kv := range a {
+			k, v, _ := strings.Cut(kv, "=")
+			switch k {
+			case "key":
+				if i == 0 {
+					args = append(args, kv)
+				}
+			case "secret", "tok", "dec", "sha1", "client", "name":
+				args = append(args, fmt.Sprintf("%s%d=%s", k, i, v))
+			}
+		}
+		obs = append(obs, o)
+	}
+	c.Emit("auth.hs2", args, strings.Join(obs, ";"))
+}
+
+func c18ReplayHandshake2(c *Ctx, m map[string]string) {
+	seed, _ := strconv.ParseInt(m["kseed"], 10, 64)
+	bits, _ := strconv.Atoi(m["kbits"])
+	n, _ := strconv.Atoi(m["n"])
+	var secrets [][]byte
+	for i := 0; i < n; i++ {
+		secrets = append(secrets, unhx(m[fmt.Sprintf("secret%d", i)]))
+	}
+	c18Handshake2(c, seed, bits, m["pattern"], secrets)
+}
+
+func c18HandshakeRun(kseed int64, kbits int, mode, httpMode, name string, secret []byte) ([]string, string) {
 	key := c18ServerKey(kseed, kbits)
 	pubDER, _ := x509.MarshalPKIXPublicKey(&key.PublicKey)
 	var asked []string
@@ -435,7 +540,7 @@ func c18Handshake(c *Ctx, kseed int64, kbits int, mode, httpMode string, secret 
 	}()
 
 	var err error
-	res := guardT(10*time.Second, func() { _, err = auth.Encrypt(server, "jeb_", key) })
+	res := guardT(10*time.Second, func() { _, err = auth.Encrypt(server, name, key) })
 	a.Close()
 	b.Close()
 	s := <-sent
@@ -469,8 +574,8 @@ func c18Handshake(c *Ctx, kseed int64, kbits int, mode, httpMode string, secret 
 	} else {
 		obs += " client-failed"
 	}
-	c.Emit("auth.hs", []string{fmt.Sprintf("kseed=%d", kseed), fmt.Sprintf("kbits=%d", kbits), "mode=" + mode, "http=" + httpMode,
-		"secret=" + hx(secret), "key=" + hx(pubDER), "tok=" + tok, "dec=" + dec, "sha1=" + sum, "client=" + cl}, obs)
+	return []string{fmt.Sprintf("kseed=%d", kseed), fmt.Sprintf("kbits=%d", kbits), "mode=" + mode, "http=" + httpMode, "name=" + name,
+		"secret=" + hx(secret), "key=" + hx(pubDER), "tok=" + tok, "dec=" + dec, "sha1=" + sum, "client=" + cl}, obs
 }
 
 func c18GenHandshake(c *Ctx) {
@@ -478,6 +583,19 @@ func c18GenHandshake(c *Ctx) {
 		b := make([]byte, n)
 		c.R.Read(b)
 		return b
+	}
+	// several handshakes in one process, same and different player names, different secrets
+	for i := 0; i < c.N(40, 2000); i++ {
+		pattern := []string{"aa", "aab", "aba", "aaa", "ab", "abab"}[i%6]
+		var secrets [][]byte
+		for j := range pattern {
+			n := []int{16, 16, 24, 32}[c.R.Intn(4)]
+			if i%5 == 4 && j == 0 {
+				n = 15 // refused before the session server is asked: the next one must still ask
+			}
+			secrets = append(secrets, rnd(n))
+		}
+		c18Handshake2(c, int64(1+i%2), 1024, pattern, secrets)
 	}
 	// every secret length 0..64 (16, 24 and 32 are AES key sizes; everything else the server must refuse)
 	for n := 0; n <= 64; n++ {
